@@ -9,6 +9,7 @@ let run_job (job : Sx.t) : string =
   | "sem" -> Jprog.job_sem job
   | "scan" -> Jfront.job_scan job
   | "pexpr" -> Jfront.job_pexpr job
+  | "pblock" -> Jfront.job_pblock job
   | "pretty" -> Jfront.job_pretty job
   | "consts" -> Jconsts.job_consts job
   | "sortnet" -> Jsort.job_sortnet job
